@@ -81,9 +81,20 @@ func bucketID(s string) int {
 	return n
 }
 
-func keyBytes(k int) []byte { return []byte("k" + strconv.Itoa(k)) }
+// keyBytes: the keys from 7 up (7 is the highest key of the random universe, higher numbers occur as scan bounds) start
+// with the byte 0xff - binary keys such as hashes do - so that open-ended scans have to reach past every printable key;
+// the order of the byte strings is still the numeric order.
+func keyBytes(k int) []byte {
+	if k >= 7 {
+		return []byte("\xffk" + strconv.Itoa(k))
+	}
+	return []byte("k" + strconv.Itoa(k))
+}
 
 func keyID(k []byte) int {
+	if len(k) > 2 && k[0] == 0xff {
+		k = k[1:]
+	}
 	if len(k) < 2 || k[0] != 'k' {
 		return -1
 	}
